@@ -20,7 +20,7 @@ RULE = ("Hypothesis-generated bond graphs on 2-14 nodes without three-membered r
         "sequence; undefined torsions dropped and only they; exclusion honoured; per-term coefficients invariant under "
         "renaming and list reordering; retype/pair-coefficient tables agree with per-atom UFF types. Non-trivial = "
         "graph with >= 1 dihedral and >= 2 terms of equal type sequence listed in opposite directions; distinct by hash.")
-ASSUMPTIONS = ["the parameter functions bond_params/angle_params/dihedral_params are taken as given here (C18 checks them)",
+ASSUMPTIONS = ["expected coefficients come from the harness' own UFF formulas (mv/ref_uff.py), which C18 checks against mofun",
                "the torsion count M of a dihedral is the number of dihedrals in the list handed to the typing function "
                "that share its central bond (counted before exclusion)"]
 
@@ -246,15 +246,17 @@ def typed_terms(c, n, bonds, angles, dihedrals, types, exclude, rules, reuse=Non
 
 
 def expected_text(kind, seq, M, rules):
-    from mofun import rough_uff as U
-    with silenced():
-        if kind == "bond":
-            return "%10.6f %10.6f" % U.bond_params(*seq, bond_order_rules=rules)
-        if kind == "angle":
-            p = U.angle_params(*seq, bond_order_rules=rules)
-            return ("%s %10.6f %10.6f %10.6f %10.6f" % p) if p[0] == "fourier" else ("%s %10.6f %d %d" % p)
-        p = U.dihedral_params(*seq, num_dihedrals_about_bond=M, bond_order_rules=rules)
-        return None if p is None else "%s %10.6f %d %d" % p
+    """formatted parameters of a sequence, computed with the harness' own implementation of the UFF formulas (C18 checks
+    that mofun's parameter functions agree with it); raises for an unsupported torsion, None for an undefined one"""
+    from mofun.uff4mof import UFF4MOF, MAIN_GROUP_ELEMENTS
+    from mv import ref_uff
+    if kind == "bond":
+        return "%10.6f %10.6f" % ref_uff.bond(UFF4MOF, *seq, rules=rules)
+    if kind == "angle":
+        p = ref_uff.angle(UFF4MOF, *seq, rules=rules)
+        return ("%s %10.6f %10.6f %10.6f %10.6f" % p) if p[0] == "fourier" else ("%s %10.6f %d %d" % p)
+    p = ref_uff.torsion(UFF4MOF, *seq, M=M, rules=rules, main_group=tuple(MAIN_GROUP_ELEMENTS))
+    return None if p is None else "%s %10.6f %d %d" % p
 
 
 def check_typing(c, out, n, bonds, angles, dihedrals, types, exclude, rules, label):
@@ -349,8 +351,7 @@ def oracle(c, stats):
         unsupported = False
         for d in want_dihedrals:
             try:
-                with silenced():
-                    U.dihedral_params(*[types[i] for i in d], bond_order_rules=rules)
+                expected_text("dihedral", tuple(types[i] for i in d), 1, rules)
             except Exception:
                 unsupported = True
                 break
